@@ -360,6 +360,10 @@ class ThreadPoolServer(Server):
             self._active_connection_queue.put(None)
         for w in self.workers:
             w.join()
+        # the pool is gone, nobody serves the remaining connections any more: terminate them
+        # (their clients see EOF and each service's on_disconnect runs)
+        for fd in list(self.fd_to_conn):
+            self._drop_connection(fd)
 
     def _remove_from_inactive_connection(self, fd):
         '''removes a connection from the set of inactive ones'''
